@@ -103,6 +103,7 @@ type memDCS struct {
 	lockOwner string // caller holding "manager"
 	faults    []*memFault
 	silent    bool // do not record (setup phase)
+	onLock    func() // monitor hook: called at every AcquireLock
 }
 
 func newMemDCS(w *vk.World, caller string) *memDCS {
@@ -180,15 +181,25 @@ func dpathGal(p string) string {
 			return "POptNodes"
 		}
 		return "(POptNode " + hostGal(parts[1]) + ")"
+	case pathMasterReplMonTS:
+		return "(POther 1)"
+	case pathTimings:
+		if len(parts) > 1 {
+			return "(PTiming " + vk.N(map[string]uint64{timingDowntime: 0, timingFailover: 1, timingSwitchover: 2}[parts[1]]) + ")"
+		}
 	}
 	return "(POther 0)"
 }
+
+// vEpoch: every testing/synctest bubble starts its fake clock at 2000-01-01T00:00:00Z;
+// all times handed to the model are relative to it (a zero time.Time maps to 0).
+const vEpoch = int64(946684800) * 1000000000
 
 func nsOf(t time.Time) int64 {
 	if t.IsZero() {
 		return 0
 	}
-	return t.UnixNano()
+	return t.UnixNano() - vEpoch
 }
 
 func switchGal(b []byte) string {
@@ -196,6 +207,10 @@ func switchGal(b []byte) string {
 	if err := json.Unmarshal(b, &s); err != nil {
 		return "(VOpaque 1)"
 	}
+	return "(VSwitch " + switchRecGal(&s) + ")"
+}
+
+func switchRecGal(s *Switchover) string {
 	cause := "CauseManual"
 	switch s.Cause {
 	case CauseWorker:
@@ -211,10 +226,10 @@ func switchGal(b []byte) string {
 	if s.Result != nil {
 		res = vk.Some(vk.T(vk.B(s.Result.Ok), vk.Z(nsOf(s.Result.FinishedAt))))
 	}
-	return "(VSwitch {| sw_from := " + optHostGal(s.From) + "; sw_to := " + optHostGal(s.To) + "; sw_cause_ := " + cause +
+	return "{| sw_from := " + optHostGal(s.From) + "; sw_to := " + optHostGal(s.To) + "; sw_cause_ := " + cause +
 		"; sw_kind := " + kind + "; sw_master_transition := " + vk.B(s.MasterTransition != "") +
 		"; sw_run_count := " + vk.Z(int64(s.RunCount)) + "; sw_initiated_at := " + vk.Z(nsOf(s.InitiatedAt)) +
-		"; sw_started := " + vk.B(!s.StartedAt.IsZero()) + "; sw_started_at := " + vk.Z(nsOf(s.StartedAt)) + "; sw_result := " + res + " |})"
+		"; sw_started := " + vk.B(!s.StartedAt.IsZero()) + "; sw_started_at := " + vk.Z(nsOf(s.StartedAt)) + "; sw_result := " + res + " |}"
 }
 
 func dvalGal(path string, b []byte) string {
@@ -247,7 +262,7 @@ func dvalGal(path string, b []byte) string {
 			return "(VOpaque 1)"
 		}
 		return "(VBool " + vk.B(v) + ")"
-	case pathLastShutdownNodeTime:
+	case pathLastShutdownNodeTime, pathTimings:
 		var t time.Time
 		if json.Unmarshal(b, &t) != nil {
 			return "(VOpaque 1)"
@@ -310,6 +325,9 @@ func (d *memDCS) SetDisconnectCallback(callback func() error) {}
 func (d *memDCS) Close()                                      {}
 
 func (d *memDCS) AcquireLock(path string) bool {
+	if d.onLock != nil && !d.silent {
+		d.onLock()
+	}
 	d.mu.Lock()
 	ok := false
 	if d.connected && d.fault("lock", path) == nil {
